@@ -34,6 +34,7 @@ def run(ctx: Ctx) -> None:
     from ..rules import memo as _memo
     _memo.rule_memo_sound(ctx, ['graphiq/solvers/alternate_target_solver.py', 'graphiq/utils/relabel_module.py'])
     _memo.rule_falsy_zero(ctx, ['graphiq/solvers/alternate_target_solver.py', 'graphiq/utils/relabel_module.py'])
+    _memo.rule_arg_names(ctx, ['graphiq/solvers/alternate_target_solver.py', 'graphiq/utils/relabel_module.py'])
     tables.rule_config_domain(ctx, ATS, "AlternateTargetSolver.solve", "AlternateTargetSolverSetting", "lc_method")
     tables.rule_api_numpy(ctx, [RELABEL])
     rule_alignment(ctx)
